@@ -109,6 +109,10 @@ func (i *interpreter) callExternal(fr *frame, fn *ssa.Function, args []value) (v
 	if f, ok := nativeFuncs[name]; ok {
 		return callNative(fr, name, f, args), true
 	}
+	if in := lookupPrefixIntrinsic(name); in != nil {
+		i.m.ex.noteIntrinsic(name)
+		return in(fr, args), true
+	}
 	// method on a native receiver
 	if sig := fn.Signature; sig.Recv() != nil && len(args) > 0 {
 		if n, ok := args[0].(native); ok {
@@ -515,6 +519,16 @@ func symLower(fr *frame, s *Term) value {
 	}
 	if s.Op == "uf" && s.S == "u_lower" {
 		return s
+	}
+	if s.Op == "str.++" {
+		// lower-casing distributes over concatenation: constants are lowered here, only the symbolic
+		// parts keep the (natively defined) symbol - this is what makes near-miss queries such as
+		// lower(p ++ x ++ q) = lower(p ++ y ++ q) with x != y decidable
+		parts := make([]*Term, len(s.Args))
+		for k, a := range s.Args {
+			parts[k] = toTerm(symLower(fr, a))
+		}
+		return strVal(mkConcat(parts...))
 	}
 	if noUpperCaseTerm(fr.i.m, s) {
 		// (agentB) every part is a constant without upper-case letters or an input whose declared alphabet
